@@ -159,9 +159,12 @@ func (c *mtastsPolicy) Close() error {
 }
 
 func (c *mtastsDelivery) PrepareDomain(ctx context.Context, domain string) {
-	c.policyFut = future.New()
+	// The lookup goroutine must not use c.policyFut: it may be running (or
+	// even start) after PrepareDomain was called for the next domain.
+	policyFut := future.New()
+	c.policyFut = policyFut
 	go func() {
-		c.policyFut.Set(c.c.mtastsGet(ctx, domain))
+		policyFut.Set(c.c.mtastsGet(ctx, domain))
 	}()
 }
 
